@@ -10,6 +10,7 @@ import (
 	"os"
 	"reflect"
 	"runtime"
+	"strings"
 	"sync"
 	"testing"
 	"time"
@@ -34,7 +35,7 @@ import (
 	"verif/internal/model"
 )
 
-const rule = "cases: a shared value of each structure type (certificate, key certificate with known, reserved and unknown type codes, keys-and-cert, destination, router identity, router address, RouterInfo, LeaseSet, LeaseSet2 with options and offline block, MetaLeaseSet, EncryptedLeaseSet, offline signature, signature, mapping, lease, Lease2; parsed from a fixed-shape model encoding derived from a seed or (half of the cases) from an encoding drawn from the structure generators of C01/C02 - every key type, flag combination, option set, offline block, lease order -, and for identities / LeaseSet2 also built through the constructors) x 2..16 goroutines, each running a generated list of 5..40 read-only operations drawn from {every exported argument-free method of the value (serialise, hash, addresses, validate, verify, accessors), size-table lookups, parsing other data, the base32/base64 codecs, the integer / date / string / hash helpers, constructors of certificates, key certificates, router addresses and leases} with generated runtime.Gosched points behind a start barrier; binary built with -race. Oracle: the race detector reports nothing (a report ends the process and the pending case file is the replay), every concurrent result equals the result of the same operation computed sequentially before the fan-out, and the serialisation is unchanged afterwards. Schedules are sampled, not enumerated. Non-trivial: >= 2 goroutines executed at least one common operation on the same value; distinct by (target, operation lists)."
+const rule = "cases: a shared value of each structure type (certificate, key certificate with known, reserved and unknown type codes, keys-and-cert, destination, router identity, router address, RouterInfo, LeaseSet, LeaseSet2 with options and offline block, MetaLeaseSet, EncryptedLeaseSet, offline signature, signature, mapping, lease, Lease2; parsed from a fixed-shape model encoding derived from a seed or (half of the cases) from an encoding drawn from the structure generators of C01/C02 - every key type, flag combination, option set, offline block, lease order -, and for identities / LeaseSet2 also built through the constructors) x 2..16 goroutines, each running a generated list of 5..40 read-only operations drawn from {every exported argument-free method of the value (serialise, hash, addresses, validate, verify, accessors), size-table lookups, parsing other data, verifying a forged sibling of the shared value (one bit of its serialisation changed; must never verify, whatever was verified before), the base32/base64 codecs, the integer / date / string / hash helpers, constructors of certificates, key certificates, router addresses and leases} with generated runtime.Gosched points behind a start barrier; binary built with -race. Oracle: the race detector reports nothing (a report ends the process and the pending case file is the replay), every concurrent result equals the result of the same operation computed sequentially before the fan-out, and the serialisation is unchanged afterwards. Schedules are sampled, not enumerated. Non-trivial: >= 2 goroutines executed at least one common operation on the same value; distinct by (target, operation lists)."
 
 func TestMain(m *testing.M) {
 	lib.NoSerial = true // shared values reach the goroutines without any method having been called on them
@@ -223,7 +224,55 @@ var otherData = func() []byte {
 
 var otherAddr = gen.AddrSpec{Cost: 4, Style: "4e54435032", Options: gen.Pairs{{"686f7374", "312e322e332e34"}, {"706f7274", "3830"}}}.Build().Encode()
 
-func operations(v any) []op {
+// forgedSibling derives another value of the same type from the shared value's own
+// serialisation with one bit changed (same identity and dates wherever the bit falls
+// elsewhere), parses it and asks it to verify. Whatever has been verified before in this
+// process, the sibling must not verify: the answer is checked absolutely, not only
+// against the sequential baseline.
+func forgedSibling(v any, target string) string {
+	e := lib.ByName(target)
+	b, err, ok := lib.Serialise(v)
+	if e == nil || !ok || err != nil || len(b) < 40 {
+		return "n/a"
+	}
+	for k := 15; k >= 9; k-- {
+		p := len(b) * k / 16
+		sib := append([]byte{}, b...)
+		sib[p] ^= 1
+		res := e.Parse(sib, 0)
+		if !res.Accepted || res.Value == nil {
+			continue
+		}
+		rv := reflect.ValueOf(res.Value)
+		if rv.Kind() != reflect.Ptr {
+			pv := reflect.New(rv.Type())
+			pv.Elem().Set(rv)
+			rv = pv
+		}
+		for _, name := range []string{"Verify", "VerifySignature"} {
+			m := rv.MethodByName(name)
+			if !m.IsValid() || m.Type().NumIn() != 0 {
+				continue
+			}
+			out := m.Call(nil)
+			verified := true
+			for _, o := range out {
+				switch x := o.Interface().(type) {
+				case bool:
+					verified = verified && x
+				case error:
+					verified = verified && x == nil
+				case nil:
+				}
+			}
+			return fmt.Sprintf("sibling with bit 0 of byte %d of %d changed: verified=%v", p, len(b), verified)
+		}
+		return "n/a (no argument-free verifier)"
+	}
+	return "n/a (no sibling parses)"
+}
+
+func operations(v any, target string) []op {
 	var ops []op
 	rv := reflect.ValueOf(v)
 	if rv.Kind() != reflect.Ptr {
@@ -310,6 +359,7 @@ func operations(v any) []op {
 			hs, _ := ra.Host()
 			return fmt.Sprintf("%d %s %x %v %s", len(rem), a, h[:4], hs, ra.PortString())
 		}},
+		op{"forged-sibling", func() string { return forgedSibling(v, target) }},
 		op{"mapping-other", func() string {
 			m, err := data.GoMapToMapping(map[string]string{"b": "2", "a": "1", "c": ""})
 			if err != nil {
@@ -336,16 +386,21 @@ func check(c Case, r *ev.Rec) error {
 	if c.Wire != "" {
 		r.Class("shared-value:generated-encoding")
 	}
-	baseOps := operations(vb)
+	baseOps := operations(vb, c.Target)
 	base := make([]string, len(baseOps))
 	for i, o := range baseOps {
 		base[i] = o.run()
+	}
+	for i, o := range baseOps {
+		if o.name == "forged-sibling" && strings.Contains(base[i], "verified=true") {
+			return fmt.Errorf("%s: after the genuine value was verified in this process, a forged %s", c.Target, base[i])
+		}
 	}
 	v, err := value(c)
 	if err != nil {
 		return err
 	}
-	ops := operations(v)
+	ops := operations(v, c.Target)
 	if len(ops) == 0 || len(ops) != len(baseOps) {
 		return nil
 	}
